@@ -38,7 +38,8 @@ def component_error_message(component_path: List[str]) -> Generator[None, None, 
         comp_path = " > ".join(components)
         prefix = f"{ERROR_PREFIX}{comp_path}:\n"
 
-        err.args = (prefix + orig_msg,)  # tuple of one
+        # NOTE: Only the first argument is the message, keep the rest, e.g. `MyError("bad", 42)`
+        err.args = (prefix + orig_msg, *err.args[1:])
 
         # `from None` should still raise the original error, but without showing this
         # line in the traceback.
